@@ -155,7 +155,16 @@ class Explorer:
         raise Unsupported('hash() of builtin value (use a contract with the hash model)')
 
     def frac_part(self, P, v, attr):
-        raise Unsupported('numerator/denominator of symbolic Fraction')
+        """numerator / denominator of a symbolic Fraction v: integers n, d with d >= 1 and v == n/d
+        (one pair per term and path; lowest terms are NOT modelled, stated in the C06 contract notes)"""
+        memo = P.__dict__.setdefault('_fracparts', {})
+        key = v.get_id()
+        if key not in memo:
+            base = v.decl().name() if z3.is_const(v) else P.fresh_name('frac')
+            n, d = z3.Int(base + '#num'), z3.Int(base + '#den')
+            P.assume(z3.And(d >= 1, z3.ToReal(n) == v * z3.ToReal(d)), fact=True)
+            memo[key] = (n, d, v)
+        return memo[key][0 if attr == 'numerator' else 1]
 
     def external_contract(self, name):
         return self.externals.get(name)
@@ -415,6 +424,8 @@ class Explorer:
                             continue
                         if isinstance(cv, tuple):
                             continue
+                        if type(cv).__name__ == 'SymStr' and cv.name == pv.name:
+                            continue      # symbolic numeral string forced from this lazy (immutable)
                         P.oblige(f'{c.short}#frame[{pth}]', 'frame', False)
                         continue
                     if cv is pv:
